@@ -56,7 +56,7 @@ def chart(ctx, grid, hits, holds, samples=True, bpm_order=None):
     return m
 
 
-def check_written(ctx, label, m, out, lay, hits, holds, grid, tol=None):
+def check_written(ctx, label, m, out, lay, hits, holds, grid, tol=None, default_id=b"01"):
     lines = out.split(b"\r\n")
     d = ref.parse(ctx, lines, layout(lay))
     ctx.check(label + ".syntax.no-ill-formed-line", not d["ill_formed"], note="%r" % d["ill_formed"][:2])
@@ -66,7 +66,7 @@ def check_written(ctx, label, m, out, lay, hits, holds, grid, tol=None):
     file_samples = d["wav"]
 
     def smp(s):  # what the file can say about a sample: the file name of a known one, else whatever id '01' stands for
-        return s if s in known else file_samples.get(b"01", b"")
+        return s if s in known else file_samples.get(default_id, b"")
 
     want_h = [(c, F(p) if not isinstance(p, SymNum) else p, smp(s)) for c, p, s in hits]
     want_l = [(c, F(p), F(e), smp(s)) for c, p, e, s in holds]
@@ -97,7 +97,7 @@ def check_written(ctx, label, m, out, lay, hits, holds, grid, tol=None):
     return d
 
 
-def ob_write(lay, hits, holds, beats, ctx, samples=True, bpm_order=None, via_file=False):
+def ob_write(lay, hits, holds, beats, ctx, samples=True, bpm_order=None, via_file=False, labels=None, default_id=None):
     from reamber.bms import BMSMap
 
     nl = len(lane_channels(lay))
@@ -109,6 +109,14 @@ def ob_write(lay, hits, holds, beats, ctx, samples=True, bpm_order=None, via_fil
     if len(holds) == 1 and holds[0][2] <= 2:
         hits = hits + [(nl - 1, F(5, 2), b"kick.wav")]
     m = chart(ctx, grid, hits, holds, samples=samples, bpm_order=bpm_order)
+    if labels == "reverse-sorted":  # row labels are a permutation of 0..n-1
+        m.hits, m.holds = m.hits.sorted(reverse=True), m.holds.sorted(reverse=True)
+    elif labels == "gaps":  # a filter drops the first hit: labels start at 1
+        m.hits = m.hits[[False] + [True] * (len(m.hits) - 1)]
+        hits = hits[1:]
+    elif labels == "stacked":  # any stack edit re-labels the lists
+        m.stack().column += 0
+    kw = dict(no_sample_default=default_id) if default_id else {}
     snap = MapSnap(m)
     if via_file:
         import os
@@ -117,18 +125,51 @@ def ob_write(lay, hits, holds, beats, ctx, samples=True, bpm_order=None, via_fil
         fd, path = tempfile.mkstemp(suffix=".bms")
         os.close(fd)
         try:
-            m.write_file(path, note_channel_config=layout(lay))
+            m.write_file(path, note_channel_config=layout(lay), **kw)
             with open(path, "rb") as f:
                 out = f.read()
         finally:
             os.unlink(path)
     else:
-        out = m.write(note_channel_config=layout(lay))
+        out = m.write(note_channel_config=layout(lay), **kw)
     snap.same(ctx, m, "source")
-    check_written(ctx, "written", m, out, lay, hits, holds, grid)
+    check_written(ctx, "written", m, out, lay, hits, holds, grid, default_id=default_id or b"01")
     # read back by the library: same objects again
     m2 = BMSMap.read([l.decode("ascii") for l in out.split(b"\r\n")], note_channel_config=layout(lay))
     ctx.check("read-back.counts", len(m2.hits) == len(hits) and len(m2.holds) == len(holds), note="%d/%d vs %d/%d" % (len(m2.hits), len(m2.holds), len(hits), len(holds)))
+
+
+def ob_many_tempos(n, ctx):
+    """n tempo points on consecutive measure lines (ids run through the base-36 table), one symbolic among them"""
+    C = classes("bms")
+    Lsym = ctx.real("Lx")
+    ctx.assume(Lsym >= 1)
+    ctx.assume(Lsym <= 60000)
+    Ls = [F(60000, 60 + (i % 240)) for i in range(n)]
+    Ls[n // 2] = Lsym
+    starts = [0]
+    for i in range(1, n):
+        starts.append(starts[-1] + 4 * Ls[i - 1])
+    m = C["Map"]()
+    m.bpms = C["BpmList"]([C["Bpm"](starts[i], 60000 / Ls[i]) for i in range(n)])
+    m.hits = C["HitList"]([C["Hit"](starts[n - 1] + 2 * Ls[n - 1], 1, sample=b"kick.wav"), C["Hit"](starts[1], 2, sample=b"kick.wav")])
+    m.title, m.artist, m.version = b"T", b"A", b"1"
+    m.samples = {b"01": b"kick.wav"}
+    out = m.write()
+    lines = out.split(b"\r\n")
+    d = ref.parse(ctx, lines, layout("BME"))
+    ctx.check("many-tempos.syntax", not d["ill_formed"], note="%r" % d["ill_formed"][:2])
+    data_lines = [l for l in lines if re.match(rb"^#\d{3}", l)]
+    ctx.check("many-tempos.data-line-shape", all(LINE.match(l) for l in data_lines), note="%r" % [l for l in data_lines if not LINE.match(l)][:2])
+    fil = [(F(0), d["bpm0"])]
+    for p, v in d["tempo"]:
+        if p == fil[-1][0]:
+            fil[-1] = (p, v)
+        else:
+            fil.append((p, v))
+    mem = [(F(4 * i), 60000 / Ls[i]) for i in range(n)]
+    ctx.check("many-tempos.same-timeline-to-3-decimals", same_steps(ctx, fil, mem, F(5001, 10**7)), note="%d file tempo events vs %d tempo points" % (len(fil), n))
+    ctx.check("many-tempos.hits", sorted((o["col"], o["pos"]) for o in d["hits"]) == [(1, F(4 * (n - 1) + 2)), (2, F(4))], note="%r" % [(o["col"], o["pos"]) for o in d["hits"]])
 
 
 def ob_offgrid(lo, hi, ctx):
@@ -177,6 +218,14 @@ def obligations(tier, seed):
     for lay in LAYOUTS:
         obs.append(Obligation("C05/write_file/%s" % lay, partial(ob_write, lay, HITS["basic"], HOLDS["basic"], [0, 4], via_file=True),
                               bound="BMSMap.write_file(path, note_channel_config=%s): the bytes in the file are checked" % lay))
+    for lab in ("reverse-sorted", "gaps", "stacked"):
+        obs.append(Obligation("C05/write/BME/row-labels=%s" % lab, partial(ob_write, "BME", HITS["basic"], HOLDS["basic"], [0, 4], labels=lab),
+                              bound="hit/hold lists whose row labels are not 0..n-1 (%s)" % lab))
+    obs.append(Obligation("C05/write/BME/no_sample_default=0Z", partial(ob_write, "BME", HITS["basic"], [(4, 1, F(5, 2), b"unknown.wav"), (5, F(7, 2), 9, b"")], [0, 4], default_id=b"0Z"),
+                          bound="objects with unknown samples written with no_sample_default=0Z (hits and hold heads)"))
+    for n in ((400,) if quick else (400, 1295)):
+        obs.append(Obligation("C05/write/many-tempos/%d" % n, partial(ob_many_tempos, n), bound="%d tempo points on consecutive measure lines (base-36 ids up to %d), one symbolic tempo" % (n, n),
+                              max_paths=50, timeout_s=600))
     obs.append(Obligation("C05/write/BME/no-sample-table", partial(ob_write, "BME", HITS["basic"], HOLDS["basic"], [0, 4], samples=False), bound="chart without a #WAV table (default id for every object)"))
     for order in ((1, 0), (2, 0, 1), (1, 2, 0)):
         beats = tempos["two"] if len(order) == 2 else tempos["three"]
